@@ -5,6 +5,7 @@ import CMacVerif.Lemmas.BucketsGeom
 import CMacVerif.Lemmas.AMRGrid
 import CMacVerif.Lemmas.CartesianRay
 import CMacVerif.Lemmas.CartesianSeg
+import CMacVerif.Lemmas.AMRNgbs
 /-!
 # C16 — every position maps to exactly one cell; grid traversal conserves path
 
@@ -211,38 +212,8 @@ theorem amr_contains (g : Grid) (b : Box3 ℝ) (p : V3 ℝ) (hx : 0 < g.nx) (hy 
     (∃ π ∈ leafPaths (g.block ix iy iz), (gridLocate g b p).1 = gridKey ix iy iz (encodeKey π) ∧
       (gridLocate g b p).2 = boxOfPath (blockBox g b ix iy iz) π) ∧
     (∀ jx jy jz : Nat, ∀ π ∈ leafPaths (g.block jx jy jz), InBox (boxOfPath (blockBox g b jx jy jz) π) p →
-      (gridLocate g b p).1 = gridKey jx jy jz (encodeKey π)) := by
-  intro ix iy iz
-  obtain ⟨hx1, hx2, hy1, hy2, hz1, hz2⟩ := hp
-  obtain ⟨sx, sy, sz⟩ := hb
-  obtain ⟨bx, bx1, bx2⟩ := blockIndex_real g.nx hx p.x b.ax b.sx sx hx1 hx2
-  obtain ⟨by', by1, by2⟩ := blockIndex_real g.ny hy p.y b.ay b.sy sy hy1 hy2
-  obtain ⟨bz, bz1, bz2⟩ := blockIndex_real g.nz hz p.z b.az b.sz sz hz1 hz2
-  have hnx : (0 : ℝ) < g.nx := by exact_mod_cast hx
-  have hny : (0 : ℝ) < g.ny := by exact_mod_cast hy
-  have hnz : (0 : ℝ) < g.nz := by exact_mod_cast hz
-  have hpos : ∀ jx jy jz, PosBox (blockBox g b jx jy jz) := by
-    intro jx jy jz; unfold PosBox blockBox; simp only [ofNat_real]
-    exact ⟨div_pos sx hnx, div_pos sy hny, div_pos sz hnz⟩
-  have hin : InBox (blockBox g b ix iy iz) p := by
-    unfold InBox blockBox; simp only
-    exact ⟨bx1, bx2, by1, by2, bz1, bz2⟩
-  obtain ⟨h1, π, hπ, h3, h4⟩ := descend_spec (g.block ix iy iz) 0 _ p (hpos ix iy iz) hin
-  refine ⟨bx, by', bz, h1, ⟨π, hπ, ?_, h4⟩, ?_⟩
-  · show gridKey ix iy iz (descend (g.block ix iy iz) 0 p (blockBox g b ix iy iz)).1 = _
-    rw [h3]; simp
-  · intro jx jy jz π' hπ' hin'
-    have hb' := boxOfPath_sub π' _ p (hpos jx jy jz) hin'
-    unfold InBox blockBox at hb'
-    simp only [ofNat_real] at hb'
-    obtain ⟨c1, c2, c3, c4, c5, c6⟩ := hb'
-    have ex : ix = jx := blockIndex_unique g.nx hx p.x b.ax b.sx sx jx hx1 hx2 c1 c2
-    have ey : iy = jy := blockIndex_unique g.ny hy p.y b.ay b.sy sy jy hy1 hy2 c3 c4
-    have ez : iz = jz := blockIndex_unique g.nz hz p.z b.az b.sz sz jz hz1 hz2 c5 c6
-    subst ex ey ez
-    have := descend_unique (g.block ix iy iz) 0 _ p (hpos ix iy iz) hin π' hπ' hin'
-    show gridKey ix iy iz (descend (g.block ix iy iz) 0 p (blockBox g b ix iy iz)).1 = _
-    rw [this]; simp
+      (gridLocate g b p).1 = gridKey jx jy jz (encodeKey π)) :=
+  amr_contains_aux g b p hx hy hz hb hp
 
 /-- the look-up is total, for EVERY numeric type (`Float` included), every box and every position,
 with no assumption on the position or on rounding: `get_key(position)` / `get_cell(position)`
@@ -671,5 +642,175 @@ example : Geo (⟨⟨0, 0, 0⟩, ⟨1, 1, 1⟩, 1, fun ix iy iz => if ix = 0 ∧
   · simp at hq
 
 end Buckets
+
+/-! ## Photon traversal of the AMR grid (`AMRDensityGrid::interact`, `get_wall_intersection`) -/
+namespace AMRT
+open CMacVerif.GridNum CMacVerif.AMR
+
+/-- The hypotheses of the geometric theorems (what the code needs):
+* `wf`, `box`, `start`: a well-formed grid (any trees of depth ≤ 10 in the blocks — no 2:1 balance
+  between neighbouring leaves is needed: a coarser neighbour is always a leaf), a box with
+  positive sides, a start position in the half-open box;
+* `dir`: the direction is not the zero vector;
+* `narrow`: no leaf spans the whole box along a periodic axis (a single cell across a periodic
+  axis is its own neighbour: the code then never wraps the position and spins with `ds = 0`);
+* `big`: `DBL_MAX` exceeds every wall distance that occurs. -/
+structure RayHyp (big : ℝ) (G : AGrid ℝ) (p d : V3 ℝ) : Prop where
+  wf : G.g.WF
+  box : PosBox G.box
+  start : InBox G.box p
+  dir : ∃ a, a < 3 ∧ vget d a ≠ 0
+  narrow : ∀ r, cellAt G.g r = some .leaf → ∀ a, a < 3 → per G a = true → bsd (refBox G r) a < bsd G.box a
+  big : ∀ r o, cellAt G.g r = some .leaf → Closed (refBox G r) o → ∀ a, a < 3 → vget d a ≠ 0 →
+    wp big (refBox G r) o d a < big
+
+theorem RayHyp.ok {big : ℝ} {G : AGrid ℝ} {p d : V3 ℝ} (h : RayHyp big G p d) : TravOK big G d :=
+  travOK_of big G d h.box h.wf.nx_pos h.wf.ny_pos h.wf.nz_pos h.dir h.narrow h.big
+
+/-- the state the loop of `interact` starts from satisfies the traversal invariant -/
+theorem start_inv {big : ℝ} {G : AGrid ℝ} {p d : V3 ℝ} (h : RayHyp big G p d) (tau : ℝ) (htau : 0 ≤ tau) :
+    TravInv G p d ⟨p, some (locate G p), tau, [], none⟩ ∧ AllGood G d ([] : List (Ref × ℝ)) := by
+  obtain ⟨l1, l2, l3, l4⟩ := locate_spec G h.wf h.box p h.start
+  refine ⟨⟨?_, fun hn => absurd htau (not_le.mpr hn), fun hne => absurd rfl hne, ?_⟩, fun e he => by simp at he⟩
+  · intro r hr; simp only [Option.some.injEq] at hr; subst hr; exact ⟨l1, l2, l3, l4⟩
+  · refine ⟨0, le_refl _, by simp [pathSum], fun a _ => ⟨0, by simp, fun _ => rfl⟩⟩
+
+/-- Σ path · d/|d| = displacement, up to whole box lengths on periodic axes only; every path length
+is ≥ 0.  For every tree (hence every tree reachable by refinements), every photon, every number of
+loop iterations. -/
+theorem amr_path_sum (big : ℝ) (G : AGrid ℝ) (m : Medium ℝ) (p d : V3 ℝ) (tau : ℝ) (fuel : Nat)
+    (h : RayHyp big G p d) (htau : 0 ≤ tau) :
+    let r := interact big G m p d tau fuel
+    (∀ a, a < 3 → ∃ w : Int, vget r.pos a = vget p a + vget d a * (pathSum r.path / Real.sqrt (dnorm2 d))
+      + w * bsd G.box a ∧ (per G a = false → w = 0)) ∧
+    ∀ e ∈ r.path, 0 ≤ e.2 := by
+  intro r
+  obtain ⟨hi, hg⟩ := start_inv h tau htau
+  obtain ⟨hinv, hgood⟩ := loop_trav big G m p d h.ok fuel _ hi hg
+  have hN : 0 < Real.sqrt (dnorm2 d) := Real.sqrt_pos.mpr (dnorm2_pos d h.dir)
+  obtain ⟨T, _, hsum, hpos⟩ := hinv.disp
+  refine ⟨fun a ha => ?_, fun e he => ?_⟩
+  · obtain ⟨w, hw, hw0⟩ := hpos a ha
+    refine ⟨w, ?_, hw0⟩
+    have hT : pathSum (loop big G m d fuel ⟨p, some (locate G p), tau, [], none⟩).1.path / Real.sqrt (dnorm2 d) = T := by
+      rw [hsum]; field_simp
+    show vget (loop big G m d fuel ⟨p, some (locate G p), tau, [], none⟩).1.pos a = _
+    rw [hw]
+    show _ = vget p a + vget d a * (pathSum (loop big G m d fuel ⟨p, some (locate G p), tau, [], none⟩).1.path
+      / Real.sqrt (dnorm2 d)) + _
+    rw [hT]
+  · obtain ⟨o, _, _, l, hl, hlen, _⟩ := hgood e he
+    rw [hlen]; exact mul_nonneg hl hN.le
+
+/-- optical depth accounting (no geometric hypothesis needed): absorbed ⇒ Σ κ·path = τ exactly;
+escaped ⇒ τ − Σ κ·path = remaining ≥ 0 -/
+theorem amr_tau_account (big : ℝ) (G : AGrid ℝ) (m : Medium ℝ) (p d : V3 ℝ) (tau : ℝ) (fuel : Nat)
+    (htau : 0 < tau) :
+    let r := interact big G m p d tau fuel
+    r.finished = true →
+      (r.cell.isSome → tauSum m r.path = tau ∧ r.od ≤ 0) ∧
+      (r.cell = none → 0 ≤ r.od ∧ tauSum m r.path = tau - r.od) := by
+  intro r hfin
+  have h0 : TauInv m tau (⟨p, some (locate G p), tau, [], none⟩ : St ℝ) :=
+    ⟨fun _ => by simp [tauSum], fun hn => absurd htau (not_lt.mpr hn.le), by simp⟩
+  obtain ⟨hinv, hexit⟩ := loop_tau big G m tau d fuel _ h0 hfin
+  set st := (loop big G m d fuel ⟨p, some (locate G p), tau, [], none⟩).1 with hst
+  have hcell : r.cell = match st.cur with | none => none | some _ => st.last := rfl
+  have hpath : r.path = st.path := rfl
+  have hod : r.od = st.od := rfl
+  rw [hcell, hpath, hod]
+  -- with a cell still current at exit the optical depth is used up
+  have hused : st.cur.isSome → st.od ≤ 0 ∧ tauSum m st.path = tau := by
+    intro hc
+    have hle : st.od ≤ 0 := by
+      rcases hexit with h | h
+      · rw [h] at hc; simp at hc
+      · exact h
+    refine ⟨hle, ?_⟩
+    rcases lt_or_eq_of_le hle with h | h
+    · exact (hinv.neg h).1
+    · have := hinv.nonneg (by rw [h]); rw [h] at this; linarith
+  cases hc : st.cur with
+  | none =>
+    refine ⟨fun h => by simp at h, fun _ => ?_⟩
+    have hnn : 0 ≤ st.od := by
+      by_contra hcon
+      have := (hinv.neg (lt_of_not_ge hcon)).2
+      rw [hc] at this; simp at this
+    exact ⟨hnn, by have := hinv.nonneg hnn; linarith⟩
+  | some c =>
+    obtain ⟨hle, hsum⟩ := hused (by rw [hc]; rfl)
+    refine ⟨fun _ => ⟨hsum, hle⟩, fun hl => ?_⟩
+    -- no cell was traversed although the optical depth is used up: impossible for τ > 0
+    have hp := hinv.last.mp hl
+    rw [hp] at hsum; simp [tauSum] at hsum; linarith
+
+/-- the returned cell contains the final position (the statement that failed before d8e5613):
+an absorbed photon (optical depth exceeded inside a cell, `od < 0`) ends in the closed box of the
+leaf that is returned; in every case the final position lies in the closed box of the current
+leaf of the grid -/
+theorem amr_absorbed_cell_contains_end (big : ℝ) (G : AGrid ℝ) (m : Medium ℝ) (p d : V3 ℝ) (tau : ℝ) (fuel : Nat)
+    (h : RayHyp big G p d) (htau : 0 ≤ tau) :
+    let r := interact big G m p d tau fuel
+    ∀ c, r.cell = some c →
+      (∃ cur, cellAt G.g cur = some .leaf ∧ InGrid G cur ∧ Closed (refBox G cur) r.pos ∧ (r.od < 0 → cur = c)) := by
+  intro r c hc
+  obtain ⟨hi, hg⟩ := start_inv h tau htau
+  obtain ⟨hinv, _⟩ := loop_trav big G m p d h.ok fuel _ hi hg
+  set st := (loop big G m d fuel ⟨p, some (locate G p), tau, [], none⟩).1 with hst
+  have hcell : r.cell = match st.cur with | none => none | some _ => st.last := rfl
+  rw [hcell] at hc
+  cases hcur : st.cur with
+  | none => rw [hcur] at hc; simp at hc
+  | some cur =>
+    rw [hcur] at hc
+    simp only at hc
+    obtain ⟨l1, l2, _, l4⟩ := hinv.cur cur hcur
+    refine ⟨cur, l1, l2, l4, fun hneg => ?_⟩
+    have := hinv.negod hneg
+    rw [hcur, hc] at this
+    exact Option.some.inj this
+
+/-- every deposit goes to the leaf that contains the segment (the statement that failed before
+39f0cc7): each recorded `(cell, length)` is a forward segment of that length, starting at a point
+of the closed box of the leaf `cell` and staying inside it -/
+theorem amr_segments_in_cells (big : ℝ) (G : AGrid ℝ) (m : Medium ℝ) (p d : V3 ℝ) (tau : ℝ) (fuel : Nat)
+    (h : RayHyp big G p d) (htau : 0 ≤ tau) :
+    ∀ e ∈ (interact big G m p d tau fuel).path, ∃ o, GoodDeposit G d o e.1 e.2 := by
+  obtain ⟨hi, hg⟩ := start_inv h tau htau
+  exact (loop_trav big G m p d h.ok fuel _ hi hg).2
+
+/-- the neighbour pointers built by `set_ngbs` are geometric for every leaf of every grid -/
+theorem amr_neighbours_geometric (G : AGrid ℝ) (hb : PosBox G.box) (hx : 0 < G.g.nx) (hy : 0 < G.g.ny)
+    (hz : 0 < G.g.nz)
+    (hnarrow : ∀ r', cellAt G.g r' = some .leaf → ∀ a, a < 3 → per G a = true → bsd (refBox G r') a < bsd G.box a)
+    (r : Ref) (hleaf : cellAt G.g r = some .leaf) (hg : InGrid G r) : NgbGeo G r :=
+  ngb_geo G hb hx hy hz hnarrow r hleaf hg
+
+/-- non-vacuity: two unrefined blocks over the box [0,2]×[0,1]×[0,1], open boundaries, a photon at
+(0.5, 0.5, 0.5) moving along +x, `big = 10` -/
+example : RayHyp 10 (⟨⟨2, 1, 1, fun _ _ _ => .leaf⟩, ⟨0, 0, 0, 2, 1, 1⟩, false, false, false⟩ : AGrid ℝ)
+    ⟨0.5, 0.5, 0.5⟩ ⟨1, 0, 0⟩ := by
+  refine ⟨⟨by decide, by decide, by decide, by decide, by decide, by decide, fun _ _ _ => by show depth Tree.leaf ≤ 10; decide⟩,
+    by unfold PosBox; norm_num, by unfold InBox; norm_num, ⟨0, by decide, by simp [vget]⟩,
+    fun r _ a _ hp => by simp [per] at hp, ?_⟩
+  intro r o hleaf ho a ha hne
+  have ha' : a = 0 ∨ a = 1 ∨ a = 2 := by omega
+  rcases ha' with rfl | rfl | rfl
+  · -- the only moving axis: the distance to the upper wall is at most the side of the block
+    have hpath : r.path = [] := by
+      unfold cellAt at hleaf
+      cases hp : r.path with
+      | nil => rfl
+      | cons i rest => rw [hp] at hleaf; simp [treeAt] at hleaf
+    have h0 := ho 0 (by decide)
+    simp only [refBox, hpath, boxOfPath, blockBox, ofNat_real, blo, bsd, vget] at h0 ⊢
+    simp only [wp, wallParam, zero_lit, refBox, hpath, boxOfPath, blockBox, ofNat_real, blo, bsd, vget]
+    norm_num at h0 ⊢
+    linarith
+  · simp [vget] at hne
+  · simp [vget] at hne
+
+end AMRT
 
 end CMacVerif
